@@ -57,6 +57,15 @@ CHECKS = {
              "quote character; bare CTE names).",
         note="Identifier lexing rules per dialect are the trusted base for the non-SQLite dialects.",
         ref="DESIGN.md section 4 C07"),
+    "C10": dict(
+        technique="token-level containment: outer rendering must hold '(' + tokens of the stand-alone rendering + ')' [+ alias] at the embedding position",
+        text="Inner queries from a shape grammar (aliased terms and aliased whole-clause criteria in WHERE/GROUP BY/HAVING/ORDER BY/ON, "
+             "nested queries, set operations, limit/offset) are embedded at 20 positions (FROM, JOIN, IN, NOT IN, negated IN, "
+             "comparison, select item, CTE body, set operand, INSERT..SELECT, aliased inner at non-defining positions) under six "
+             "dialect classes, inline and parameterised; the outer token stream must contain exactly the stand-alone token stream, "
+             "wrapped and aliased as the position prescribes. Held on the executions observed.",
+        note="Comparison through the reference lexers; placeholders compared by kind.",
+        ref="DESIGN.md section 4 C10"),
     "C13": dict(
         technique="reference lexer + per-dialect clause-order tables over all call subsets; all-orders permutation comparison; sqlite3 parser",
         text="All subsets of clause-setting calls per statement kind and dialect are rendered: no lexical errors, balanced "
